@@ -4,6 +4,7 @@ CONSTANTS
   MaxLive = 3
   HeaderRows <- HR1
   Lean = TRUE
+  Ext = FALSE
 CONSTRAINT Emit
 INVARIANT StagePerLine
 INVARIANT NodePerCell
